@@ -231,6 +231,9 @@ func (p *Path) subRope(s StrV, lo, hi *smt.Term, site ssa.Instruction) StrV {
 	if len(s.A) == 0 {
 		return s
 	}
+	if c, ok := lo.Int64(); ok && c == 0 && smt.Same(hi, s.LenTerm()) {
+		return s // the whole string (provenance of opaque atoms is kept)
+	}
 	if len(s.A) == 1 && s.A[0].Kind == AView {
 		a := s.A[0]
 		ln := smt.Sub(hi, lo)
@@ -267,6 +270,36 @@ func (p *Path) subRope(s StrV, lo, hi *smt.Term, site ssa.Instruction) StrV {
 		}
 		if loIdx >= 0 && hiIdx >= loIdx {
 			return normStr(StrV{A: append([]Atom{}, s.A[loIdx:hiIdx]...)})
+		}
+		// cut points that are FORCED (by the path condition) to coincide with an
+		// atom boundary: opaque atoms then stay whole and keep their provenance
+		if _, hc := hi.Int64(); !hc && len(s.A) > 1 {
+			cum2 := smt.Int(0)
+			bounds := []*smt.Term{cum2}
+			for _, a := range s.A {
+				cum2 = smt.Add(cum2, a.LenTerm())
+				bounds = append(bounds, cum2)
+			}
+			find := func(t *smt.Term) int {
+				if c, ok := t.Int64(); ok && c == 0 {
+					return 0
+				}
+				for i, b := range bounds {
+					if smt.Same(b, t) {
+						return i
+					}
+				}
+				for i, b := range bounds {
+					if !p.feasible(smt.Not(smt.Eq(t, b))) {
+						return i
+					}
+				}
+				return -1
+			}
+			li, hi2 := find(lo), find(hi)
+			if li >= 0 && hi2 >= li {
+				return normStr(StrV{A: append([]Atom{}, s.A[li:hi2]...)})
+			}
 		}
 	}
 	// multi-atom: walk atoms; an atom with concrete start can be cut symbolically
@@ -441,6 +474,38 @@ func (p *Path) indexConst(s StrV, pat []byte) *smt.Term {
 		return smt.Int(0)
 	}
 	n := len(pat)
+	if n == 1 && len(s.A) > 1 {
+		// single byte in a rope: first atom that contains it (atoms whose
+		// alphabet excludes the byte, and constants, are decided here)
+		res := smt.Int(-1)
+		type part struct {
+			idx, off *smt.Term
+		}
+		var parts []part
+		off := smt.Int(0)
+		for _, at := range s.A {
+			one := StrV{A: []Atom{at}}
+			var ix *smt.Term
+			if at.Kind == AView && at.Alpha != nil && !at.Alpha[pat[0]] {
+				ix = smt.Int(-1)
+			} else {
+				ix = p.indexConst(one, pat)
+			}
+			parts = append(parts, part{ix, off})
+			off = smt.Add(off, one.LenTerm())
+		}
+		for i := len(parts) - 1; i >= 0; i-- {
+			pt := parts[i]
+			if pt.idx.IsConst() && pt.idx.I.Sign() < 0 {
+				continue
+			}
+			res = smt.Ite(smt.Ge(pt.idx, smt.Int(0)), smt.Add(pt.off, pt.idx), res)
+		}
+		return res
+	}
+	if n == 1 && len(s.A) == 1 && s.A[0].Kind == AView && s.A[0].Alpha != nil && !s.A[0].Alpha[pat[0]] {
+		return smt.Int(-1)
+	}
 	L := s.MaxLen()
 	ls := s.LenTerm()
 	mkey := "index|" + s.String() + "|" + string(pat)
